@@ -334,7 +334,7 @@ func runWorker(prop, tier string, base uint64, wi, nw, runs int, budget time.Dur
 			out.Samples = append(out.Samples, b)
 		}
 		// determinism self-check on a sample
-		if i%97 == 3 && !nonReplayable(c) {
+		if i%97 == 3 && traceStable(c) {
 			c2 := pd.Gen(seed, tier)
 			c2.Property, c2.Seed, c2.RunIndex, c2.Tier = prop, seed, i, tier
 			o2 := Execute(c2)
@@ -367,6 +367,24 @@ func gcTick() {
 	if gcCount%64 == 0 {
 		runtime.GC()
 	}
+}
+
+// traceStable: the event trace of the case is a pure function of its seed. A
+// real collection inside a run (XGC) frees and reuses addresses, which changes
+// object ordinals in the trace but not the verdict: such cases are replayed to
+// confirm violations, but not compared hash by hash.
+func traceStable(c *Case) bool {
+	if nonReplayable(c) {
+		return false
+	}
+	if c.Seq != nil {
+		for _, op := range c.Seq.Ops {
+			if op.K == XGC {
+				return false
+			}
+		}
+	}
+	return true
 }
 
 func nonReplayable(c *Case) bool {
@@ -471,7 +489,7 @@ func main() {
 			s := seedFor(*seed, *prop, i)
 			c := pd.Gen(s, *tier)
 			c.Property, c.Seed, c.RunIndex, c.Tier = *prop, s, i, *tier
-			if nonReplayable(c) {
+			if !traceStable(c) {
 				continue
 			}
 			gcTick()
